@@ -1,7 +1,7 @@
 """C07 — directory-cache coherence."""
 from props import histprop
 PID = "C07"
-MIX = [("dirc", {}), ("dirc", {"nops": 90}), ("names", {"dostype": 5}), ("names", {"dostype": 4}), ("dircfull", {}), ("dircspill", {})]
+MIX = [("dirc", {}), ("dirc", {"nops": 90}), ("names", {"dostype": 5}), ("names", {"dostype": 4}), ("dircfull", {}), ("dircspill", {}), ("dircgrow", {}), ("dirc488", {})]
 RULE = ('seeded DIRCACHE histories that grow one directory past one/two cache blocks with 3..30-byte names and 0..79-byte comments, delete at head/middle/tail, empty middle blocks, change record lengths, flush files; cached listing vs tree model vs hash listing, cache chains decoded independently')
 def run(res):
     histprop.run(res, PID, MIX, {"C07"}, RULE, nquick=60, nthorough=1500)
